@@ -10,7 +10,7 @@
    On every string the model of M1 is run from all entry points; the invariants are the state
    invariants behind C04 (every error window can be sliced; every successful step advances the
    cursor) and C12 (an accepted value is well-formed). *)
-EXTENDS EnumFormat, EnumParser, Universe
+EXTENDS EnumFormat, EnumParser, LexParser, Universe
 
 CONSTANTS MAXTOK, MAXEDITS, TIER, SEED
 VARIABLES mode, w, edits
@@ -68,6 +68,10 @@ StepsAdvance == Progress(TheRun)
 AcceptedIsWF == TheRun.res.r = "ok" => WFParsed(TheRun.res.v)
 SideDoorsWF == /\ (ParseTruth(TextOf).r = "ok" => \A i \in 1..Len(ParseTruth(TextOf).v) : InUnit(ParseTruth(TextOf).v[i]))
                /\ (ParseBudget(TextOf).r = "ok" => \A i \in 1..Len(ParseBudget(TextOf).v) : InUnit(ParseBudget(TextOf).v[i]))
+\* M8 (C05): the window the lexical parser slices is well-formed and a term never reports more than its environment holds
+TheLex == LexParse(TextOf)
+LexWindowOK == TheLex.r # "panic"
+LexLengthOK == TheLex.r = "ok" => TheLex.lenOK
 Emit == PrintT(<<"CMD", ToJson([op |-> "parse_any", fmt |-> FmtName, s |-> TextOf])>>)
 Spec == Init /\ [][Next]_vars
 =============================================================================
